@@ -536,7 +536,7 @@ func av1SeqHdrPayload(p int64) []byte {
 	w.put(1, 1) // enable_restoration
 	// color_config
 	w.flag(g.highBD)
-	w.put(0, 1) // mono_chrome
+	w.put(0, 1)         // mono_chrome
 	w.flag(g.colorDesc) // color_description_present_flag
 	if g.colorDesc {
 		w.put(uint64(g.cp), 8) // color_primaries
@@ -545,9 +545,9 @@ func av1SeqHdrPayload(p int64) []byte {
 	}
 	// (mono_chrome = 0 and not the sRGB / identity special case: color_range is coded; Main profile:
 	// subsampling_x = subsampling_y = 1, so chroma_sample_position follows)
-	w.flag(g.fullRange)            // color_range
+	w.flag(g.fullRange)           // color_range
 	w.put(uint64(g.chromaPos), 2) // chroma_sample_position
-	w.put(0, 1) // separate_uv_delta_q
+	w.put(0, 1)                   // separate_uv_delta_q
 	w.flag(v.filmGrain)
 	w.trailing()
 	return w.b
@@ -740,8 +740,8 @@ func selfCheckCodecs() {
 		// the literal strings (used to classify the served CODECS for the trace) agree with the strings
 		// recomputed from the bytes (used by the C16 oracle), and the three classes g are distinct
 		for _, kind := range []int{kH265, kVP9, kAV1} {
-			must(sameCodecString(videoCodecString(kind, p), codecFromParamBytes(kind, p)), "codec string of kind %d id %d: literal %q, from bytes %q",
-				kind, p, videoCodecString(kind, p), codecFromParamBytes(kind, p))
+			must(sameCodecString(videoCodecString(kind, p), codecFromParamBytes(&history{}, kind, p)), "codec string of kind %d id %d: literal %q, from bytes %q",
+				kind, p, videoCodecString(kind, p), codecFromParamBytes(&history{}, kind, p))
 			must(videoCodecString(kind, p) != videoCodecString(kind, (p+4)%12), "codec strings of kind %d ids %d / %d coincide", kind, p, (p+4)%12)
 		}
 	}
